@@ -120,6 +120,52 @@ def mw_run(r, h_mw, sd, n, timeout, only=None):
     elif rc != 0 or not outs:
         r.hits.append(Hit('tie', 'C07:multi_harness', 'c07_multi %s failed rc=%d: %s' % (' '.join(args), rc, out[-600:]),
                           {'harness': 'c07_multi', 'args': args}))
+def run_abort(ctx, r, drv):
+    """round w11c — abort_all on the real pika::detail::condition_variable (harness/c07_abort.cpp, plain OS threads, own process per
+    case): n queued waiters, then abort_all(lock) / the destructor.  Monitor (no model): every waiter's wait ends with the
+    yield_aborted exception exactly once, none returns normally, none stays blocked, the queue is empty.  DIFF against the extracted
+    Model/CondVarAbort.v (kind ABORT): abort() calls, exceptions, blocked, finished, queue, agents still carrying the abort reason."""
+    from vlib import sh as _sh, Hit as _Hit, diff_lines as _diff
+    h = ctx.build_harness('c07_abort', 'c07_abort.cpp')
+    rng_n = [1, 2 + ctx.seed % 3, 5 + ctx.seed % 4] if ctx.tier == 'quick' else [1, 2, 3, 4, 6, 9, 16]
+    cases = [('%s%d' % (m[0], n), n, m) for n in rng_n for m in ('call', 'dtor')]
+    rc, mout = _sh([drv], input=''.join('IN ABORT %s %d 1\n' % (cid, n) for cid, n, m in cases), timeout=120)
+    model = [x for x in mout.split('\n') if x.startswith('OUT ABORT ')]
+    impl = []
+    for cid, n, m in cases:
+        cmd = [h, cid, str(n), m]
+        rc, out = _sh(cmd, timeout=90)
+        rep = {'harness': 'c07_abort', 'cmd': cmd[1:]}
+        lines = [x for x in out.split('\n') if x.startswith('OUT ABORT ')]
+        r.evaluations += 1
+        r.count('ABORT:mode=%s' % m)
+        r.count('ABORT:waiters=%d' % n)
+        if not lines:
+            r.hits.append(_Hit('monitor', 'C07:abort:crash', 'abort_all scenario %s: no result (rc=%d): %s' % (cid, rc, ' | '.join(out.split('\n')[-4:])[:400]), rep))
+            continue
+        o = lines[0]
+        kv = dict(x.split('=', 1) for x in o.split(' ')[3:] if '=' in x)
+        r.nontrivial('abort %s' % cid)
+        if kv.get('queued') != '1':
+            r.notes.append('abort_all scenario %s: the waiters did not all queue up within 20 s (load?) — case skipped' % cid)
+            continue
+        impl.append(o.split(' all=')[0])
+        if kv['thrown'] != str(n) or kv['returned_normally'] != '0' or kv['other_exceptions'] != '0':
+            r.hits.append(_Hit('monitor', 'C07:abort:not_every_waiter_aborted_once', '%s with %d queued waiters: %s waits ended with yield_aborted, %s returned '
+                               'normally, %s other exceptions (%s)' % ('~condition_variable' if m == 'dtor' else 'abort_all(lock)', n, kv['thrown'],
+                                                                       kv['returned_normally'], kv['other_exceptions'], o), rep))
+        if kv['blocked'] != '0' or kv['finished'] != str(n):
+            r.hits.append(_Hit('monitor', 'C07:abort:waiter_left_blocked', '%s with %d queued waiters: %s still blocked in the aborted wait, %s of %d threads finished (%s)'
+                               % ('~condition_variable' if m == 'dtor' else 'abort_all(lock)', n, kv['blocked'], kv['finished'], n, o), rep))
+        if kv['queue'] != '0':
+            r.hits.append(_Hit('monitor', 'C07:abort:queue_not_empty', 'abort_all returned with %s entries queued and no new waiter (%s)' % (kv['queue'], o), rep))
+        if len(r.samples) < 10:
+            r.sample({'abort_all': cid, 'observed': o[:300]})
+    diffs, nn = _diff(ctx, impl, [x for x in model if x.split(' ')[2] in [y.split(' ')[2] for y in impl]])
+    r.traces += nn
+    for (k, a, b) in diffs[:5]:
+        r.hits.append(_Hit('corr', 'C07:abort:correspondence', 'abort_all: implementation and model (CondVarAbort.v) differ (%s): impl [%s] model [%s]' % (k, a, b),
+                           {'harness': 'c07_abort', 'impl': a, 'model': b}))
 
 
 def run(ctx):
@@ -245,4 +291,5 @@ def run(ctx):
             r.hits.append(Hit('model', 'C07:os_timed_wait:model_stale',
                               'the model proves os_timed_wait_blocks_notifier_refuted but the implementation completed the witness (%s): the OS-agent instance of the model no longer matches the code' % o_[0],
                               {'harness': 'c07_f14', 'observed': o_[0]}))
+    run_abort(ctx, r, drv)
     return r
